@@ -153,21 +153,42 @@ Theorem C16_policy_denied_only_for_denial : forall o status attempt max,
   classify (result_of o status) attempt max = LMarkDead DPolicyDenied <-> exists why, o = OStopped (Deny why).
 Proof. exact policy_denied_only_for_denial. Qed.
 
-(** REFUTED on the current code (kept faithful; see docs/notes/C16.md): an IP or CIDR rule written
-    in IPv4-mapped notation (::ffff:a.b.c.d[/n], n >= 96) matches no address at all, so a deny rule
-    naming a target's own address in that notation does not stop the delivery.  The check replays the
-    witness on the implementation under the key deny-rule-in-ipv4-mapped-notation-never-matches. *)
-Theorem C16_deny_ip_rule_mapped_notation_refuted :
-  exists p u a,
-    p_deny p = [cidr_rule F6 a 128] /\
-    h_literal u = Some {| ip_fam := F6; ip_val := a |} /\
-    check p u = Allow.
-Proof. exact deny_ip_rule_mapped_notation_refuted. Qed.
+(** IP/CIDR rules written in IPv4-mapped notation (::ffff:a.b.c.d[/n], n >= 96): config.parseEgressRule
+    unmaps them ([compile_prefix], fix 4e2df4c), and the compiled rule hits exactly the addresses its
+    unmapped form names - every address (plain, or itself IPv4-mapped) that denotes an IPv4 address
+    inside a.b.c.d/(n-96); equivalently, whose IPv4-mapped spelling lies in the 128-bit block as written. *)
+Theorem C16_mapped_rule_hits_unmapped_form : forall px i,
+  px_fam px = F6 -> (96 <= px_bits px)%N -> (mapped_lo <= px_addr px <= mapped_hi)%N ->
+  (cidr_hit (compile_prefix px) i = true <->
+   match denotes i with
+   | A4 v => spec_in_block 32 (px_bits px - 96) (px_addr px - mapped_lo) v
+   | _ => False
+   end).
+Proof. exact mapped_rule_hits_unmapped_form. Qed.
 
-Theorem C16_mapped_notation_rule_never_hits : forall px i,
-  px_fam px = F6 -> (96 <= px_bits px)%N -> (mapped_lo <= px_addr px <= mapped_hi)%N -> wf_ip i ->
-  cidr_hit px i = false.
-Proof. exact mapped_notation_rule_never_hits. Qed.
+Theorem C16_mapped_rule_hits_mapped_spelling : forall px i,
+  px_fam px = F6 -> (96 <= px_bits px <= 128)%N -> (mapped_lo <= px_addr px <= mapped_hi)%N ->
+  (cidr_hit (compile_prefix px) i = true <->
+   match denotes i with
+   | A4 v => spec_in_block 128 (px_bits px) (px_addr px) (mapped_lo + v)
+   | _ => False
+   end).
+Proof. exact mapped_rule_hits_mapped_spelling. Qed.
+
+(** Every other rule (plain IPv4, plain IPv6, mapped address with fewer than 96 prefix bits) is kept as written. *)
+Theorem C16_compile_prefix_other : forall px,
+  (px_fam px <> F6 \/ (px_bits px < 96)%N \/ ~ (mapped_lo <= px_addr px <= mapped_hi)%N) ->
+  compile_prefix px = px.
+Proof. exact compile_prefix_other. Qed.
+
+(** Hence a deny rule in that notation wins like any other: a hop one of whose addresses it names is never allowed. *)
+Theorem C16_mapped_deny_rule_wins : forall p u r px i v,
+  In r (p_deny p) -> r_is_cidr r = true -> r_px r = compile_prefix px ->
+  px_fam px = F6 -> (96 <= px_bits px)%N -> (mapped_lo <= px_addr px <= mapped_hi)%N ->
+  In i (resolved_addrs u) -> denotes i = A4 v ->
+  spec_in_block 32 (px_bits px - 96) (px_addr px - mapped_lo) v ->
+  check p u <> Allow.
+Proof. exact mapped_deny_rule_wins. Qed.
 
 Print Assumptions C16_rebind_safe.
 Print Assumptions C16_allowed_ip_exact.
@@ -192,5 +213,7 @@ Print Assumptions C16_refusal_is_first_bad_hop.
 Print Assumptions C16_denied_target_sends_nothing.
 Print Assumptions C16_denied_is_dead_unretried.
 Print Assumptions C16_policy_denied_only_for_denial.
-Print Assumptions C16_deny_ip_rule_mapped_notation_refuted.
-Print Assumptions C16_mapped_notation_rule_never_hits.
+Print Assumptions C16_mapped_rule_hits_unmapped_form.
+Print Assumptions C16_mapped_rule_hits_mapped_spelling.
+Print Assumptions C16_compile_prefix_other.
+Print Assumptions C16_mapped_deny_rule_wins.
